@@ -691,3 +691,32 @@ Proof. induction ops as [|o r IH]; intros s H; simpl; [exact H|]. apply IH. appl
 
 Lemma pp_init : pp_ok init.
 Proof. intros e []. Qed.
+
+(* ---------- deleting an object that never owned its name ---------- *)
+Lemma delete_foreign rc s name :
+  match resolve s name with
+  | None => True
+  | Some o => match find_cl s o with Some c => primary c <> name | None => True end
+  end -> step rc s (ODelete name) = (s, []).
+Proof.
+  intros H. simpl. unfold delete. destruct (resolve s name) as [o|]; [|reflexivity].
+  destruct (find_cl s o) as [c|]; [|reflexivity].
+  assert (E : primary c =? name = false) by lia. rewrite E. reflexivity.
+Qed.
+
+(* ... and such an object is never admitted: an upsert under a name bound to another cluster's object, or
+   claiming a server name bound to another object, changes nothing *)
+Lemma upsert_rejected rc s name aliases sv :
+  match resolve s name with
+  | None => conflict s (next s) (name :: aliases) = true
+  | Some o => match find_cl s o with
+              | Some c => primary c <> name \/ conflict s o (name :: aliases) = true
+              | None => True end
+  end -> step rc s (OUpsert name aliases sv) = (s, []).
+Proof.
+  intros H. simpl. unfold upsert. destruct (resolve s name) as [o|].
+  - destruct (find_cl s o) as [c|]; [|reflexivity]. destruct H as [H|H].
+    + assert (E : primary c =? name = false) by lia. rewrite E. reflexivity.
+    + rewrite H, orb_true_r. reflexivity.
+  - rewrite H. reflexivity.
+Qed.
